@@ -1,5 +1,6 @@
 """C20, bounded part: meaning-preserving transformations preserve what is built."""
 import copy
+import types
 import dataclasses
 import typing
 import fiddle as fdl
@@ -16,7 +17,7 @@ def _const(v):
   return isinstance(v, (int, float, str, bytes, bool, type(None), complex))
 
 
-def norm_built(x, seen=None):
+def norm_built(x, seen=None, behav=False):
   """Structural form of a built object (values, types, sharing by first-visit label).
   functools.partial objects are compared by behaviour: the result (or exception class) of
   calling them without further arguments."""
@@ -33,6 +34,12 @@ def norm_built(x, seen=None):
         return ('partial-call', getattr(v.func, '__name__', repr(v.func)), go(v()))
       except Exception as e:   # pylint: disable=broad-except
         return ('partial-raises', getattr(v.func, '__name__', repr(v.func)), type(e).__name__)
+    if behav and isinstance(v, (types.FunctionType, types.MethodType, type)):
+      # compared like a functools.partial without bound arguments: by what calling it gives
+      try:
+        return ('partial-call', getattr(v, '__name__', repr(v)), go(v()))
+      except Exception as e:   # pylint: disable=broad-except
+        return ('partial-raises', getattr(v, '__name__', repr(v)), type(e).__name__)
     if isinstance(v, (list, dict, set, tuple)) or (hasattr(v, '__dict__') and not isinstance(v, type)
                                                     and not callable(v)):
       if id(v) in labels:
@@ -47,9 +54,9 @@ def norm_built(x, seen=None):
   return go(x)
 
 
-def built(cfg):
+def built(cfg, behav=False):
   try:
-    return ('ok', norm_built(fdl.build(cfg)))
+    return ('ok', norm_built(fdl.build(cfg), behav=behav))
   except Exception as e:   # pylint: disable=broad-except
     return ('raises', type(e).__name__)
 
@@ -59,6 +66,10 @@ def g_posonly(a=1, b=2, /, c=3, *, k=4):
 
 
 SHARED_DEFAULT = [1, 2]
+
+
+def g_variadic(*steps, **hparams):
+  return ('g_variadic', steps, tuple(sorted(hparams.items())))
 
 
 def g_mutable(x=SHARED_DEFAULT, y=SHARED_DEFAULT):
@@ -92,6 +103,12 @@ def extra_pool():
   # named tuples of literals keep their type (only plain tuples are "tuples of literals")
   P['namedtuples-of-literals'] = lambda: fdl.Config(pool.fc, pool.Pt(3, 4), q=[pool.Pt(1), (pool.Pt(5, 6), 'a')],
                                                     r={'shape': pool.Pt(7, (8, 9))})
+  # Partials that are configured, but only through *args, **kwargs or positional-only parameters
+  def partials_configured_outside_named_parameters():
+    va = fdl.Partial(g_variadic, 'tokenize', 'pad')
+    return fdl.Config(pool.fc, [fdl.Partial(g_variadic, width=128, depth=2), fdl.Partial(g_posonly, 9)],
+                      q={'v': va, 'plain': fdl.Partial(pool.fk)}, r=(fdl.Partial(g_posonly, 1, 2),))
+  P['partials-configured-through-varargs-kwargs-posonly'] = partials_configured_outside_named_parameters
   P['interned-tuples'] = lambda: fdl.Config(pool.fc, (1, 2), q=[(1, 2), ((3,), 'a')], r=((), (None,)))
   P['unset-tagged-in-container'] = lambda: fdl.Config(pool.fc, 1, q=[pool.TagA.new(), pool.TagB.new(5)])
   def tagged_shared_payload():
@@ -156,6 +173,11 @@ def check_case(args):
     # callable behaves the same but is not a partial object; require the same outcome only
     if b1[0] != b0[0]:
       bad(f'build outcome changed from {b0} to {b1}')
+    else:
+      bb0, bb1 = built(orig, behav=True), built(out, behav=True)
+      if bb0 != bb1:
+        bad(f'the built callables behave differently after {tname} (bound arguments lost?): '
+            f'{str(bb0)[:200]} -> {str(bb1)[:200]}')
   elif b1 != b0:
     bad(f'{tname} changed what is built: {str(b0)[:150]} -> {str(b1)[:150]}')
   if keeps_eq:
